@@ -1,6 +1,12 @@
 import DracoProps.C09
 import DracoProofs.EbAssignPoints
 import DracoProofs.EbEncCounts2
+import DracoProofs.EbCountsIso
+import DracoProofs.EbIsoCheck
+import DracoProofs.EbCoverage
+import DracoProofs.EbConnExample
+import DracoProofs.EbCountsRun
+import DracoProofs.EbCountsStream
 /-
   C09 for Edgebreaker, on the CORNER-TABLE models (DracoModel/EbConnectivity.lean `assignPoints`,
   DracoModel/EbEncoder.lean `computeNumberOfEncodedPoints`): closes, on the decoder's side, the gap of DracoProps/C09.lean
@@ -20,9 +26,16 @@ import DracoProofs.EbEncCounts2
     (`fanOfE`: swing-right walk from `vc[v]`, `closed = SwingLeft(vc[v]) ≠ invalid`), when the closedness test agrees with
     the walk (`ClosedOK`; derived from table invariants / `CornerTable.create` in DracoProofs/EbEncCounts2.lean:
     `computeNumberOfEncodedPoints_tbl`, `_create`, `_of_encode`); `= num_vertices − isolated` for ≤ 1 attribute.
-  Evaluated, not proved here: that the encoder's fans are the images of the decoder's under the checked isomorphism,
-  and `processed.size = num_faces − NumDegeneratedFaces` (`encodeConnectivity_faces` in DracoProofs/EbEncCounts.lean
-  proves `≤`, distinctness, non-degeneracy, and equality IFF every non-degenerate face is reached by the traversal);
+  * `eb_encoded_points_eq_decoded`: the two counts are EQUAL under the isomorphism of the tables, the correspondence of
+    the attribute vertices, H2, coverage and `hiso` (fans correspond: `CountsIso.fan_corr`).
+  * `eb_encoded_points_eq_decoded_of_run` / `_single_of_run`: the same with every ENCODER-side hypothesis (table invariants,
+    `hvcE`, `hiso`, `Coverage`) discharged from the successful `encodeConnectivity`; left: the connectivity link (`TVIso`, from
+    `ctIso`) and decoder-side facts (`APHyp`, hole flag ⇒ boundary, `AttVertIff`, `SeamFlagsSound`).
+  * `eb_encoded_faces` (FACES, encoder side, unconditional): the number of faces the encoder reports,
+    `num_faces − NumDegeneratedFaces`, IS the number of faces of `processed_connectivity_corners_` (one per traversal symbol /
+    interior start face, i.e. what a decoder rebuilds); these faces are pairwise different and exactly the non-degenerate
+    faces of the encoder's corner table (traversal completeness, DracoProofs/EbCoverage.lean: a graph-search invariant of
+    `EncodeConnectivityFromCorner` — the C-chain descent — over the tables `CornerTable.create` builds).
   `counts-ok` compares both counts on every case.
 -/
 namespace Draco.C09Eb
@@ -104,5 +117,305 @@ example : (5 : Nat) = (exConn.ct.numVertices - exConn.ct.numIsolated) +
         obtain rfl | rfl | rfl | rfl : v = 0 ∨ v = 1 ∨ v = 2 ∨ v = 3 := by omega
         all_goals (unfold ClosedOK; decide +kernel))
     (by decide +kernel)
+
+open Draco.EbEnc.CountsIso Draco.EbEnc.EncCounts Draco.EbEnc.AttViews in
+/-- **C09, points, Edgebreaker: the number of points the encoder reports equals the number the decoder creates**
+    (more than one attribute): `ComputeNumberOfEncodedPoints` on the encoder's corner table (`hrunE`) against
+    `AssignPointsToCorners` on the decoder's (`hrunD`), under
+    `hF` (`FanHyps`): the base views are isomorphic (`TVIso`, from `ctIso`), the table invariants of both sides, a vertex the
+      decoder marks as hole lies on the boundary;
+    `hiff`: two decoder corners have the same vertex in attribute table `i` iff their images have (`eb_att_views_iso`);
+    `h2`: the decoder's seam flags are sound (H2 of `eb_point_count_fan`);
+    `hcov`: every encoder vertex with a left-most corner is the image of a decoder vertex (traversal coverage);
+    `hiso`: `num_vertices − NumIsolatedVertices` is the number of vertices with a left-most corner.
+    Proof: both counts are sums over the fans read off the corner tables (`eb_encoded_points_fans`, `eb_decoded_points_fans`),
+    the fans correspond (`fan_corr`: images under the corner map, up to rotation when closed; the counts only see the equality
+    pattern of the attribute vertices), and per fan encoder formula = decoder count (`eb_point_count_fan`). -/
+theorem eb_encoded_points_eq_decoded (atts : Array Attribute) (conn : ConnEnc) (used : Array AttConn) (nE : Nat)
+    (co : ConnOut) (n : Nat) (attsD : Array AttConn) (c2p : Array Nat) (nD tags : Nat) (φ ψ : Nat → Nat)
+    (hatts : atts.size > 1)
+    (hrunE : computeNumberOfEncodedPoints atts conn used = .ok nE)
+    (hne : attsD.isEmpty = false)
+    (hrunD : assignPoints co n attsD = .ok (c2p, nD, tags))
+    (hF : FanHyps n co conn.ct φ ψ)
+    (hiff : AttVertIff n attsD used φ)
+    (h2 : SeamFlagsSound co attsD)
+    (hcov : Coverage n conn.ct φ)
+    (hiso : conn.ct.numVertices - conn.ct.numIsolated = (usedVerts conn.ct.vc).length) :
+    nE = nD :=
+  CountsIso.eb_encoded_points_eq_decoded atts conn used nE co n attsD c2p nD tags φ ψ hatts hrunE hne hrunD hF hiff h2 hcov hiso
+
+section TetraExample
+open Draco.EbEnc.CountsIso Draco.EbEnc.EncCounts Draco.EbEnc.AttViews
+
+def tetraCT : CT := ⟨AP.tetra.c2v, AP.tetra.opp, AP.tetra.vc, 0, 0⟩
+def tetraConn : ConnEnc := { (default : ConnEnc) with ct := tetraCT }
+def tetraPhi : Nat → Nat := phi #[0, 3, 6, 9]
+def tetraPsi : Nat → Nat := fun v => (#[0, 1, 2, 3] : Array Nat)[v]!
+
+theorem tetraPhi_id (d : Nat) (h : d < 12) : tetraPhi d = d := by
+  have : ∀ d, d < 12 → tetraPhi d = d := by decide +kernel
+  exact this d h
+
+theorem tetraFanHyps : FanHyps 4 AP.tetra tetraCT tetraPhi tetraPsi where
+  iso := tvIsoCheck_sound _ _ _ #[0, 1, 2, 3] #[0, 1, 2, 3] #[0, 1, 2, 3, 4, 5, 6, 7, 8, 9, 10, 11] (by decide +kernel)
+  dec := AP.tetra_hyp
+  hole := by
+    intro v hv _ h
+    have hv' : v < 4 := hv
+    obtain rfl | rfl | rfl | rfl : v = 0 ∨ v = 1 ∨ v = 2 ∨ v = 3 := by omega
+    all_goals exact absurd h (by decide)
+  encB := ⟨by decide, by decide, by decide, by decide +kernel⟩
+  encVc := by decide +kernel
+  encLm := by
+    intro w hw _ _
+    have hw' : w < 4 := hw
+    obtain rfl | rfl | rfl | rfl : w = 0 ∨ w = 1 ∨ w = 2 ∨ w = 3 := by omega
+    all_goals exact AP.closed_of_period (J := 2) (by decide) (by decide)
+  encCov := by
+    intro d hd
+    have hd' : d < 12 := hd
+    rw [tetraPhi_id d hd']
+    obtain ⟨_, _, k, hk⟩ := AP.tetra_hyp.cover d hd
+    exact ⟨k, hk⟩
+
+theorem tetraEncRun : computeNumberOfEncodedPoints #[default, default] tetraConn #[exAtt] = .ok 4 := by decide +kernel
+
+/-- non-vacuity: the tetrahedron with one seamless attribute table, identity isomorphism: 4 = 4 points -/
+example : (4 : Nat) = 4 :=
+  eb_encoded_points_eq_decoded #[default, default] tetraConn #[exAtt] 4 AP.tetra 4 #[exAtt] _ 4 0 tetraPhi tetraPsi
+    (by decide) tetraEncRun rfl exAssign tetraFanHyps
+    (by
+      refine ⟨rfl, fun i hi c c' hc hc' => ?_⟩
+      rw [tetraPhi_id c hc, tetraPhi_id c' hc'])
+    (by
+      intro v hv
+      have hv' : v < 4 := hv
+      obtain rfl | rfl | rfl | rfl : v = 0 ∨ v = 1 ∨ v = 2 ∨ v = 3 := by omega
+      all_goals decide +kernel)
+    (by unfold Coverage; decide +kernel) (by decide +kernel)
+
+end TetraExample
+
+open Draco.EbEnc.CountsIso Draco.EbEnc.EncCounts Draco.EbEnc.AttViews in
+/-- **C09, points, Edgebreaker, from the encoder's run** (more than one attribute): `eb_encoded_points_eq_decoded` with
+    EVERY hypothesis about the encoder's corner table discharged from the successful `encodeConnectivity` (`henc`):
+    the table is `CornerTable.create`'s (`encodeConnectivity_visited`); `Opposite` is an involution, a recorded left-most
+    corner is a corner of its vertex in a non-degenerate face (`ofTable_hvcE`, `create_vertexCorners_nondeg`: new loop
+    invariants of `ComputeVertexCorners`), a left-most corner with a left neighbour lies on a closed fan, every corner of a
+    non-degenerate face is reached from its vertex's left-most corner; `num_vertices − NumIsolatedVertices` is the number of
+    vertices with a left-most corner (`ofTable_hiso`); and COVERAGE is a theorem (`coverage_of_run`, from traversal
+    completeness `Coverage.encodeConnectivity_coverage`).  Left: the connectivity link `hiso` (from `ctIso`), and
+    decoder-side facts: `hdec` (`APHyp`: the decoder's table has fans, an unmarked vertex has a closed fan), `hhole` (a vertex
+    the decoder still marks as hole vertex is on the boundary), `hiff` (attribute vertices correspond), `h2` (seam flags sound). -/
+theorem eb_encoded_points_eq_decoded_of_run {ch : ConnChoices} {valence : Bool} {posFaces : Faces}
+    {acv : Array (Nat × Array Nat)} {conn : ConnEnc} (atts : Array Attribute) (used : Array AttConn) (nE : Nat)
+    (co : ConnOut) (n : Nat) (attsD : Array AttConn) (c2p : Array Nat) (nD tags : Nat) (ψ : Nat → Nat)
+    (hatts : atts.size > 1)
+    (hrunE : computeNumberOfEncodedPoints atts conn used = .ok nE)
+    (henc : encodeConnectivity ch valence posFaces acv = .ok conn)
+    (hne : attsD.isEmpty = false)
+    (hrunD : assignPoints co n attsD = .ok (c2p, nD, tags))
+    (hn : n = conn.processed.size)
+    (hiso : TVIso (baseViewD n co.c2v co.opp co.vc) conn.ct.view (phi conn.processed) ψ)
+    (hdec : APHyp n co)
+    (hhole : ∀ v, v < co.vc.size → co.vc[v]! ≠ inv → co.hole[v]! = true → ∃ k, iter (sRP co.opp) k co.vc[v]! = inv)
+    (hiff : AttVertIff n attsD used (phi conn.processed))
+    (h2 : SeamFlagsSound co attsD) : nE = nD :=
+  CountsIso.eb_encoded_points_eq_decoded_of_run atts used nE co n attsD c2p nD tags ψ hatts hrunE henc hne hrunD hn hiso hdec
+    hhole hiff h2
+
+open Draco.EbEnc.CountsIso Draco.EbEnc.EncCounts Draco.EbEnc.AttViews in
+/-- the position-only configuration (`num_attributes() ≤ 1`, no attribute corner table on the decoder's side): both sides
+    report their number of vertices in use; `hconn`: the decoder's `num_connectivity_verts` is the number of its vertices
+    that have a left-most corner -/
+theorem eb_encoded_points_eq_decoded_single_of_run {ch : ConnChoices} {valence : Bool} {posFaces : Faces}
+    {acv : Array (Nat × Array Nat)} {conn : ConnEnc} (atts : Array Attribute) (used : Array AttConn) (nE : Nat)
+    (co : ConnOut) (n : Nat) (attsD : Array AttConn) (c2p : Array Nat) (nD tags : Nat) (ψ : Nat → Nat)
+    (hatts : atts.size ≤ 1)
+    (hrunE : computeNumberOfEncodedPoints atts conn used = .ok nE)
+    (henc : encodeConnectivity ch valence posFaces acv = .ok conn)
+    (hne : attsD.isEmpty = true)
+    (hrunD : assignPoints co n attsD = .ok (c2p, nD, tags))
+    (hn : n = conn.processed.size)
+    (hiso : TVIso (baseViewD n co.c2v co.opp co.vc) conn.ct.view (phi conn.processed) ψ)
+    (hdec : APHyp n co)
+    (hhole : ∀ v, v < co.vc.size → co.vc[v]! ≠ inv → co.hole[v]! = true → ∃ k, iter (sRP co.opp) k co.vc[v]! = inv)
+    (hconn : co.numConnVerts = (usedVerts co.vc).length) : nE = nD :=
+  CountsIso.eb_encoded_points_eq_decoded_single_of_run atts used nE co n attsD c2p nD tags ψ hatts hrunE henc hne hrunD hn hiso
+    hdec hhole hconn
+
+section TriExample
+open Draco.EbEnc.CountsIso Draco.EbEnc.EncCounts Draco.EbEnc.AttViews Draco.EbEnc.ConnExample
+
+/-- one triangle, one attribute data (attribute 1, corner values 0 1 2) -/
+def triAcv : Array (Nat × Array Nat) := #[(1, #[0, 1, 2])]
+/-- the encoder's connectivity result (value of the closed term) -/
+def triConn : ConnEnc :=
+  match encodeConnectivity exCh.conn false #[(0, 1, 2)] triAcv with
+  | .ok c => c
+  | .error _ => default
+
+theorem triEncode : encodeConnectivity exCh.conn false #[(0, 1, 2)] triAcv = .ok triConn := by
+  have h : (match encodeConnectivity exCh.conn false #[(0, 1, 2)] triAcv with | .ok _ => true | .error _ => false) = true := by
+    decide +kernel
+  unfold triConn
+  split at h
+  · rename_i e he; rw [he]
+  · exact absurd h (by decide)
+
+/-- the decoder's attribute corner table of the triangle (`buildAttConn`, `C01Eb.AttViewsExample.exBuild1`) -/
+def triAttD : AttConn := ⟨#[true, true, true], #[true, true, true], #[0, 1, 2], #[0, 1, 2], true⟩
+
+theorem triRunE : computeNumberOfEncodedPoints #[default, default] triConn #[(triConn.atts[0]!).conn] = .ok 3 := by
+  have h : (match computeNumberOfEncodedPoints #[default, default] triConn #[(triConn.atts[0]!).conn] with
+      | .ok n => n == 3 | .error _ => false) = true := by decide +kernel
+  split at h
+  · rename_i n hn; rw [hn, eq_of_beq h]
+  · exact absurd h (by decide)
+
+theorem triRunD : assignPoints exCo 1 #[triAttD] = .ok (#[0, 1, 2], 3, 1048576) := by
+  have h : (match assignPoints exCo 1 #[triAttD] with
+      | .ok r => r == (#[0, 1, 2], 3, 1048576) | .error _ => false) = true := by decide +kernel
+  split at h
+  · rename_i r hr; rw [hr, eq_of_beq h]
+  · exact absurd h (by decide)
+
+theorem triAPHyp : APHyp 1 exCo := by
+  refine ⟨⟨⟨by decide, by decide, by decide, by decide⟩, by decide, ?_⟩, ?_, ?_⟩
+  · intro v hv
+    have hv' : v < 3 := hv
+    obtain rfl | rfl | rfl : v = 0 ∨ v = 1 ∨ v = 2 := by omega
+    all_goals decide
+  · intro c hc
+    have hc' : c < 3 := hc
+    obtain rfl | rfl | rfl : c = 0 ∨ c = 1 ∨ c = 2 := by omega
+    all_goals exact ⟨by decide, by decide, 0, by decide⟩
+  · intro v hv _ h
+    have hv' : v < 3 := hv
+    obtain rfl | rfl | rfl : v = 0 ∨ v = 1 ∨ v = 2 := by omega
+    all_goals exact absurd h (by decide)
+
+/-- non-vacuity of `eb_encoded_points_eq_decoded_of_run`: one triangle with a POSITION and one more attribute — the
+    encoder's run `triEncode` is the model's, the decoder's table `exCo` is what `connLoop` builds (`ConnExample.exConn`):
+    3 = 3 points -/
+example : (3 : Nat) = 3 :=
+  eb_encoded_points_eq_decoded_of_run #[default, default] #[(triConn.atts[0]!).conn] 3 exCo 1 #[triAttD] _ 3 _
+    (fun v => (#[0, 1, 2] : Array Nat)[v]!) (by decide) triRunE triEncode rfl triRunD (by decide +kernel)
+    (tvIsoCheck_sound _ _ _ #[0, 1, 2] #[0, 1, 2] #[0, 1, 2] (by decide +kernel)) triAPHyp
+    (by
+      intro v hv _ _
+      have hv' : v < 3 := hv
+      obtain rfl | rfl | rfl : v = 0 ∨ v = 1 ∨ v = 2 := by omega
+      all_goals exact ⟨1, by decide +kernel⟩)
+    (by
+      refine ⟨rfl, fun i hi c c' hc hc' => ?_⟩
+      have hi' : i < 1 := hi
+      obtain rfl : i = 0 := by omega
+      have hc3 : c < 3 := hc
+      have hc3' : c' < 3 := hc'
+      obtain rfl | rfl | rfl : c = 0 ∨ c = 1 ∨ c = 2 := by omega
+      all_goals (obtain rfl | rfl | rfl : c' = 0 ∨ c' = 1 ∨ c' = 2 := by omega) <;> decide +kernel)
+    (by
+      intro v hv
+      have hv' : v < 3 := hv
+      obtain rfl | rfl | rfl : v = 0 ∨ v = 1 ∨ v = 2 := by omega
+      all_goals decide +kernel)
+
+
+/-- the position-only run on the triangle -/
+def tri0Conn : ConnEnc :=
+  match encodeConnectivity exCh.conn false #[(0, 1, 2)] #[] with
+  | .ok c => c
+  | .error _ => default
+
+theorem tri0Encode : encodeConnectivity exCh.conn false #[(0, 1, 2)] #[] = .ok tri0Conn := by
+  have h : (match encodeConnectivity exCh.conn false #[(0, 1, 2)] #[] with | .ok _ => true | .error _ => false) = true := by
+    decide +kernel
+  unfold tri0Conn
+  split at h
+  · rename_i e he; rw [he]
+  · exact absurd h (by decide)
+
+theorem tri0RunE : computeNumberOfEncodedPoints #[default] tri0Conn #[] = .ok 3 := by
+  have h : (match computeNumberOfEncodedPoints #[default] tri0Conn #[] with
+      | .ok n => n == 3 | .error _ => false) = true := by decide +kernel
+  split at h
+  · rename_i n hn; rw [hn, eq_of_beq h]
+  · exact absurd h (by decide)
+
+/-- non-vacuity of `eb_encoded_points_eq_decoded_single_of_run`: the triangle with its POSITION attribute only -/
+example : (3 : Nat) = 3 :=
+  eb_encoded_points_eq_decoded_single_of_run #[default] #[] 3 exCo 1 #[] _ 3 _
+    (fun v => (#[0, 1, 2] : Array Nat)[v]!) (by decide) tri0RunE tri0Encode rfl exAssignPts (by decide +kernel)
+    (tvIsoCheck_sound _ _ _ #[0, 1, 2] #[0, 1, 2] #[0, 1, 2] (by decide +kernel)) triAPHyp
+    (by
+      intro v hv _ _
+      have hv' : v < 3 := hv
+      obtain rfl | rfl | rfl : v = 0 ∨ v = 1 ∨ v = 2 := by omega
+      all_goals exact ⟨1, by decide +kernel⟩)
+    (by decide +kernel)
+
+end TriExample
+
+open Draco.EbEnc.CountsIso Draco.EbEnc.EncCounts Draco.EbEnc.AttViews in
+/-- **C09 at the level of the REPORTED counts, position-only geometries**: `enc.numEncodedPoints` / `enc.numEncodedFaces`
+    (what `encodeEdgebreaker` reports) equal `mesh.numPoints` / `mesh.numFaces` of a mesh `decodeConnectivity` returned
+    (`hst : DecStagesOf mesh co` — the decoder's stages, obtained by inversion from any successful `decodeConnectivity`:
+    `Eb.decodeConnectivity_stages_runs`), given the connectivity link (`hn`, `hiso`) and the decoder-side table facts
+    (`hdec`, `hhole`, `hconnV`).  The multi-attribute form is `CountsIso.eb_encoded_counts_of_link` (DracoProofs/EbCountsStream.lean);
+    its seam hypothesis compares attribute tables index by index, which fits only when every attribute data has an interior
+    seam (the encoder counts on the tables of the controllers that encode on their attribute table, the decoder on all). -/
+theorem eb_encoded_counts_of_link_single {ch : EbChoices} {g : Geometry} {md : Option GeometryMetadata} {o : EbOpts}
+    {enc : Encoded} (henc : encodeEdgebreaker ch g md o = .ok enc)
+    {mesh : Mesh} {co : ConnOut} (hst : DecStagesOf mesh co) (ψ : Nat → Nat)
+    (hatts : g.atts.length ≤ 1)
+    (hne : mesh.atts.isEmpty = true)
+    (hn : mesh.numFaces = enc.conn.processed.size)
+    (hiso : TVIso (baseViewD mesh.numFaces co.c2v co.opp co.vc) enc.conn.ct.view (phi enc.conn.processed) ψ)
+    (hdec : APHyp mesh.numFaces co)
+    (hhole : ∀ v, v < co.vc.size → co.vc[v]! ≠ inv → co.hole[v]! = true → ∃ k, iter (sRP co.opp) k co.vc[v]! = inv)
+    (hconnV : co.numConnVerts = (usedVerts co.vc).length) :
+    enc.numEncodedPoints = mesh.numPoints ∧ enc.numEncodedFaces = mesh.numFaces :=
+  CountsIso.eb_encoded_counts_of_link_single henc hst ψ hatts hne hn hiso hdec hhole hconnV
+
+open Draco.EbEnc.CountsIso Draco.EbEnc.EncCounts Draco.EbEnc.AttViews Draco.EbEnc.ConnExample in
+/-- non-vacuity: the one-triangle stream of DracoProofs/EbConnExample.lean: the encoder reports 3 points and 1 face, the
+    decoded mesh `exMesh` (`exConnLink`) has 3 points and 1 face -/
+example : exEnc.numEncodedPoints = ConnExample.exMesh.numPoints ∧ exEnc.numEncodedFaces = ConnExample.exMesh.numFaces :=
+  eb_encoded_counts_of_link_single exEncode (mesh := ConnExample.exMesh) (co := exCo)
+    ⟨⟨1, 3, 1, [], true⟩, exTrav [], #[], 0, exConn [], rfl, rfl, rfl, rfl, by simp [pure, Except.pure, ConnExample.exMesh],
+      exAssignPts⟩
+    (fun v => (#[0, 1, 2] : Array Nat)[v]!) (by decide) (by decide) (by decide +kernel)
+    (tvIsoCheck_sound _ _ _ #[0, 1, 2] #[0, 1, 2] #[0, 1, 2] (by decide +kernel)) triAPHyp
+    (by
+      intro v hv _ _
+      have hv' : v < 3 := hv
+      obtain rfl | rfl | rfl : v = 0 ∨ v = 1 ∨ v = 2 := by omega
+      all_goals exact ⟨1, by decide +kernel⟩)
+    (by decide +kernel)
+
+open Draco.EbEnc.EncCounts in
+/-- **C09, faces, Edgebreaker (encoder side), unconditional.**  After a successful `encodeEdgebreaker` the reported
+    number of encoded faces (`ComputeNumberOfEncodedFaces` = `num_faces − NumDegeneratedFaces` of the position corner
+    table) equals the number of `processed_connectivity_corners_`; their faces are pairwise different, not degenerate,
+    and EVERY non-degenerate face of the table is among them (`Coverage.encodeConnectivity_coverage`).  With the
+    connectivity link (`mesh.numFaces = processed.size`, part of `ctIso`) this is "encoded faces = decoded faces". -/
+theorem eb_encoded_faces (ch : EbChoices) (g : Geometry) (md : Option GeometryMetadata) (o : EbOpts) (enc : Encoded)
+    (henc : encodeEdgebreaker ch g md o = .ok enc) :
+    enc.numEncodedFaces = enc.conn.processed.size ∧
+    (enc.conn.processed.toList.map (· / 3)).Nodup ∧
+    (∀ c ∈ enc.conn.processed.toList, c < enc.conn.ct.numCorners ∧ isDegenerated enc.conn.ct (c / 3) = .ok false) ∧
+    (∀ f, f < enc.conn.ct.numFaces → isDegenerated enc.conn.ct f = .ok false →
+      f ∈ enc.conn.processed.toList.map (· / 3)) := by
+  obtain ⟨_, coder, posFaces, acv, _, _, _, _, _, hconn, _, _, _, _, _, _, _, hnf, _⟩ :=
+    (encodeEdgebreaker_stages ch g md o enc henc).stages
+  have hf := encodeConnectivity_faces ch.conn (coder == 2) posFaces acv enc.conn hconn
+  have hc := Coverage.encodeConnectivity_coverage ch.conn (coder == 2) posFaces acv enc.conn hconn
+  exact ⟨by rw [hnf, Coverage.encodeConnectivity_size ch.conn (coder == 2) posFaces acv enc.conn hconn], hf.1, hf.2.1, hc⟩
+
+/-- non-vacuity: the one-triangle run of DracoProofs/EbConnExample.lean -/
+example : ConnExample.exEnc.numEncodedFaces = ConnExample.exEnc.conn.processed.size :=
+  (eb_encoded_faces _ _ _ _ _ ConnExample.exEncode).1
 
 end Draco.C09Eb
